@@ -36,6 +36,8 @@ def list_cases(sh):
         sp_ = c05.space('quick', seed)
         tabs = {'plain': list(qcheck.tables_upto(sp_['rows'], 2)), 'named': list(qcheck.tables_upto(sp_['nrows'], 2)), 'join': list(qcheck.tables_upto(sp_['jrows'], 2))}
         for kind, q in sp_['qs'][sh['lo']:sh['hi']]:
+            if kind == 'wide':
+                continue
             for B in (sp_['Bs'] if kind == 'join' else [None]):
                 for A in tabs[kind][::sh['stride']]:
                     yield q, A, B, (sp_['names'] if kind == 'named' else None)
